@@ -319,7 +319,8 @@ func (rt *runtime) cmplEvaluateNodeSwitchStatement(node *nodeSwitchStatement) Va
 	labels := append(rt.labels, "") //nolint:gocritic
 	rt.labels = nil
 
-	discriminantResult := rt.cmplEvaluateNodeExpression(node.discriminant)
+	// 12.11: GetValue of the discriminant, once, before any clause is tested
+	discriminantResult := rt.cmplEvaluateNodeExpression(node.discriminant).resolve()
 	target := node.defaultIdx
 
 	for index, clause := range node.body {
